@@ -670,7 +670,7 @@ def c10(E, blt, opts, r):
     use_nick = rng.random() < 0.5
     nicks = ['n%s' % chr(97 + i % 26) + str(i) for i in range(n)]
     def ref(c): return nicks[c - 1] if use_nick else str(c)
-    ws = [' ', '  ', '\t', '\n', ' \n ', '\r\n']
+    ws = [' ', '  ', '\t', '\n', ' \n ', '\r\n', ' ', '\n', '\r', '\x0c', '\u2028']
     def sep(): return rng.choice(ws)
     toks = ['%d' % n, '%d' % p.nSeats]
     if use_nick: toks.append('[nick %s]' % ' '.join(nicks))
@@ -690,7 +690,8 @@ def c10(E, blt, opts, r):
         for rank in rk:
             toks.append('='.join(ref(c) for c in rank))
         toks.append('0')
-        if rng.random() < 0.3: toks.append(rng.choice(['# a comment 1 2 3\n', '# "quoted 0 in a line comment\n', '#\n']))
+        # a line comment ends where str.splitlines() ends the line: LF, CRLF, CR, VT, FF, FS, GS, RS, NEL, LS, PS
+        if rng.random() < 0.3: toks.append(rng.choice(['# a comment 1 2 3', '# "quoted 0 in a line comment', '#']) + rng.choice(EOLS))
         if rng.random() < 0.25: toks.append(rng.choice(COMMENTS))
     toks.append('0')
     for c in range(1, n + 1):
@@ -724,6 +725,7 @@ def c10(E, blt, opts, r):
             break
     return out
 
+EOLS = ['\n', '\n', '\n', '\r\n', '\r', '\x0b', '\x0c', '\x1c', '\x1d', '\x1e', '\x85', '\u2028', '\u2029']
 COMMENTS = ['/* nested /* comment */ 0 */', '/* printed as "Ally" on the paper */', '/* "two words" 7 0 */',
             '/* "open quote only */', '/* x" 3 */', '/**/', '/* # not a line comment */']
 
